@@ -30,6 +30,7 @@ func resolve(m *Module) error {
 		builder:        &Builder{},
 		inProgressUses: make(map[*Grouping]*usesResolved),
 		loadedModules:  make(map[string]*Module),
+		included:       make(map[string]bool),
 	}
 	if err := r.module(m); err != nil {
 		return err
@@ -57,6 +58,7 @@ type resolver struct {
 	inProgressUses map[*Grouping]*usesResolved
 	unresolvedUses []*usesUnresolved
 	loadedModules  map[string]*Module
+	included       map[string]bool
 	trace          bool
 
 	// definitions left out because their if-feature is off, by parent. refines and
@@ -309,6 +311,13 @@ func (r *resolver) copyOverIncludes(main *Module, includes []*Include) error {
 		if i.loader == nil {
 			return errors.New("no module loader defined")
 		}
+		// a submodule is merged once however many include statements name it: the module and
+		// its submodules may all include it (RFC7950 Sec 7.1.6), even each other
+		key := main.ident + " " + i.subName
+		if r.included[key] {
+			continue
+		}
+		r.included[key] = true
 		var err error
 		var rev string
 		if i.rev != nil {
